@@ -1,6 +1,8 @@
 package main
 
 import (
+	"strconv"
+	"os"
 	"fmt"
 	"go/ast"
 	"go/token"
@@ -170,6 +172,22 @@ func (x *Exec) callStatic(st *State, fn *ssa.Function, args []Value, binds []Val
 	}
 	key := funcKey(fn)
 	fc := w.contracts[key]
+	if len(st.frames) == 1 && !x.pureMode {
+		// assertions the function under verification owes just before it calls fn
+		root := st.frames[0]
+		if rfc := w.contracts[funcKey(root.fn)]; rfc != nil && len(rfc.CallSites[fn.Name()]) > 0 {
+			env := x.newSpecEnv(st, st, root.fn)
+			env.bindRootParams(root)
+			for _, c := range rfc.CallSites[fn.Name()] {
+				g, err := env.evalBool(c.Expr)
+				if err != nil {
+					x.contractError(c, err)
+					continue
+				}
+				x.oblige(st, "callsite", fn.Name()+":"+c.Label, c.Props, g, pos)
+			}
+		}
+	}
 	// a side-effect free function is applied as the SMT function it denotes (exact and
 	// deterministic); its contract, if any, is then only an obligation of its own check
 	if pd := w.pureDef(fn); pd != nil && binds == nil && !(fc != nil && fc.Flags["opaque"]) {
@@ -470,6 +488,44 @@ func (x *Exec) applyContract(st *State, fn *ssa.Function, fc *FuncContract, args
 		}
 	}
 	env = x.specEnvForCall(st, pre, fn, args, binds)
+	// a clause `result == E` defines the result: use E itself instead of a fresh symbol constrained
+	// to equal it (same meaning, but later goals about it become syntactic identities)
+	for _, c := range fc.Ensures {
+		if mentionsEvents(c.Expr) || hasProp(c.Props, "FINDING") {
+			continue
+		}
+		for _, cj := range conjuncts(c.Expr) {
+			be, ok := cj.(*ast.BinaryExpr)
+			if !ok || be.Op != token.EQL {
+				continue
+			}
+			id, ok := be.X.(*ast.Ident)
+			if !ok {
+				continue
+			}
+			idx := -1
+			switch {
+			case id.Name == "result" || id.Name == "result0":
+				idx = 0
+			case strings.HasPrefix(id.Name, "result"):
+				if n, err := strconv.Atoi(id.Name[6:]); err == nil {
+					idx = n
+				}
+			}
+			if idx < 0 || idx >= len(results) || mentionsResult(be.Y) {
+				continue
+			}
+			old, isTerm := results[idx].(*Term)
+			if !isTerm || old.Kind != KVar {
+				continue
+			}
+			v, err := env.evalTerm(be.Y)
+			if err != nil || v.Sort != old.Sort {
+				continue
+			}
+			results[idx] = v
+		}
+	}
 	env.setResults(fn, results)
 	for _, c := range invs {
 		env.vars[c.Param] = env.vars[invRecv]
@@ -836,6 +892,9 @@ func (x *Exec) havocEvents(st *State) {
 				var found bool
 				as, rs, found = x.w.eventSorts(kname, st.top().fn)
 				if !found {
+					if os.Getenv("GOVC_DEBUG") != "" {
+						fmt.Fprintf(os.Stderr, "havocEvents: no sorts for kind %s\n", kname)
+					}
 					continue
 				}
 			}
@@ -1320,4 +1379,28 @@ func (x *Exec) assumeWellFormed(st *State, val *Term, t types.Type) {
 		}
 		st.assume(f)
 	}
+}
+
+// conjuncts splits a && b && c.
+func conjuncts(e ast.Expr) []ast.Expr {
+	switch n := e.(type) {
+	case *ast.ParenExpr:
+		return conjuncts(n.X)
+	case *ast.BinaryExpr:
+		if n.Op == token.LAND {
+			return append(conjuncts(n.X), conjuncts(n.Y)...)
+		}
+	}
+	return []ast.Expr{e}
+}
+
+func mentionsResult(e ast.Expr) bool {
+	found := false
+	ast.Inspect(e, func(n ast.Node) bool {
+		if id, ok := n.(*ast.Ident); ok && (strings.HasPrefix(id.Name, "result") || id.Name == "err") {
+			found = true
+		}
+		return true
+	})
+	return found
 }
